@@ -21,6 +21,11 @@ pub fn progress(what: &str) {
     }
 }
 
+/// A sign of life inside a long step (one store call has returned): keeps the description of the step.
+pub fn tick() {
+    LAST.store(now(), Ordering::SeqCst);
+}
+
 pub fn start(limit: u64, report: Option<PathBuf>) {
     LAST.store(now(), Ordering::SeqCst);
     std::thread::Builder::new()
